@@ -313,6 +313,8 @@ class TS:
                                                    Q_SCHED, Q_IS_READY, Q_CTX_SET_TASK})
         self.stats = {"configs": 0, "runs": 0, "inlined": set(), "havocs": set()}
         self.profile = None
+        self.branch_adts = ()       # ADT name suffixes whose undecided `match` emits BRANCH events
+        self.effect_callees = None  # regex: calls reported as ("EFFECT", q, fn, block)
         self.on_task = self._find_on_task()
         self._hook_effect = {}
         self._self_only = {}
@@ -495,13 +497,13 @@ class TS:
                             cenv.pop(("L", dl[0]), None)
                     push(fr.retblk, env=cenv, frames=frames[:-1])
             elif k == "switch":
-                self._switch(fn, fr, b, t, env, s, push)
+                self._switch(fn, fr, b, t, env, s, push, mon, monitor)
             elif k == "call":
                 self._call(frames, fr, fn, b, t, env, s, cok, mon, monitor, push, report)
         self.stats["configs"] += steps
         return viol
 
-    def _switch(self, fn, fr, b, t, env, s, push):
+    def _switch(self, fn, fr, b, t, env, s, push, mon=None, monitor=None):
         r = self.pa.root(fn, t[1])
         neg = False
         while r[0] == "not":
@@ -559,13 +561,32 @@ class TS:
                         return
         # undecided: all distinct targets
         done = set()
+        branch_adt = None
+        if r[0] == "discr" and r[2] and self.branch_adts and any(r[2].endswith(a) for a in self.branch_adts):
+            branch_adt = r[2]
         for _, tb in cases:
             if tb not in done:
                 done.add(tb)
                 tt = fn.blocks[tb]["t"]
                 if tt[0] == "unreachable" and not fn.blocks[tb]["s"]:
                     continue
-                push(tb, env=env)
+                if branch_adt is not None:
+                    labels = [v for v, x in cases if x == tb]
+                    byd = {str(d): n for n, d in self.m.variants(branch_adt)}
+                    explicit = {v for v, _ in cases if v != "otherwise"}
+                    names = set()
+                    for v in labels:
+                        if v == "otherwise":
+                            names |= {n for n, d in self.m.variants(branch_adt) if str(d) not in explicit}
+                        elif v in byd:
+                            names.add(byd[v])
+                    bev = ("BRANCH", branch_adt.split("::")[-1], tuple(sorted(names)), fn.q, b)
+                    mon2 = monitor.on_event(mon, bev)
+                    if mon2 == "STOP":
+                        continue
+                    push(tb, env=env, mon=mon2, ev=bev)
+                else:
+                    push(tb, env=env)
 
     def _call(self, frames, fr, fn, b, t, env, s, cok, mon, monitor, push, report):
         call = Call(fn, b)
@@ -664,6 +685,8 @@ class TS:
             ev = ("PERSIST", s, fn.q, b) if self.task_tracked(fr, args[1], env) else ("PUSH_OTHER", fn.q, b)
         elif q == Q_SCHED:
             ev = ("SCHED", fn.q, b)
+        elif self.effect_callees is not None and self.effect_callees.search(q):
+            ev = ("EFFECT", q, fn.q, b)
         elif TRY_BRANCH.search(q) and args:
             r = self.pa.root(fn, args[0])
             v = None
@@ -676,6 +699,12 @@ class TS:
         elif FROM_RESIDUAL.search(q) and call.dest[0] == 0 and not call.dest[1]:
             env2 = dict(env2)
             env2["ek"] = "ERR_PROP"
+            # `x.ok_or(ActError::..)?`: the error is constructed here, not propagated from a callee
+            r = self.pa.root(fn, args[0]) if args else None
+            if r is not None and r[0] == "call" and TRY_BRANCH.search(r[1]):
+                r2 = self.pa.root(fn, Call(fn, r[2]).args[0])
+                if r2[0] == "call" and re.search(r"Option::<T>::ok_or(_else)?$", r2[1]):
+                    env2["ek"] = "ERR_NEW"
 
         if call.dest[0] == 0 and not call.dest[1] and not FROM_RESIDUAL.search(q):
             env2 = dict(env2)
@@ -862,6 +891,10 @@ def fmt_event(m, ev):
         return "call %s may change other tasks (tracked state re-chosen) in %s" % (ev[1], at(ev[2], ev[3]))
     if k in ("SCHED", "READY_CHECK", "EMIT_OTHER", "WRITE_OTHER", "PUSH_OTHER"):
         return "%s in %s" % (k, at(ev[1], ev[2]))
+    if k == "EFFECT":
+        return "EFFECT %s in %s" % (short_name(ev[1]), at(ev[2], ev[3]))
+    if k == "BRANCH":
+        return "match %s = %s in %s" % (ev[1], "|".join(ev[2]), at(ev[3], ev[4]))
     if k == "EXIT":
         return "EXIT %s with state %s" % (ev[1], ev[2])
     return str(ev)
